@@ -159,6 +159,19 @@ Theorem C06_batch_record_is_the_batch : forall before after M, before ≈ M ->
   apply_changes M (batch_diff before after) ≈ after.
 Proof. exact batch_diff_apply. Qed.
 
+(* The incremental evaluator [walk] that the generated case files run is the model of
+   the theorems: it returns the crash disk of [crash_disk] for the continuation point
+   and, when it answers true, every probe's observation equals the model's answer on
+   the crash disk of [crash_disk] for that probe's point. *)
+Theorem C06_case_evaluator_is_crash_disk : forall ops mac d w idx probes nxt,
+  (forall i a b, nxt = (idx + N.of_nat i, a, b) -> (i <= length ops)%nat ->
+     snd (walk mac d w ops idx probes nxt) =
+     crash_disk pc_deser mac pc_ser pc_enc_changes pc_ser_hdr pc_enc_map d w ops i a b) /\
+  (fst (walk mac d w ops idx probes nxt) = true ->
+     forall i a b o, In (idx + N.of_nat i, a, b, o) probes -> (i <= length ops)%nat ->
+       obs_ok mac (crash_disk pc_deser mac pc_ser pc_enc_changes pc_ser_hdr pc_enc_map d w ops i a b) o = true).
+Proof. exact walk_spec. Qed.
+
 (* non-vacuity: the concrete postcard codec satisfies the decode-after-encode
    hypotheses on sample values (the harness compares it with the real bytes on every
    run), a history with a batch and a checkpoint satisfies ops_ok, and a
